@@ -739,8 +739,10 @@ def main(argv):
         wall_s=round(wall, 2),
         violations=new_viol,
     )
-    os.makedirs(os.path.join(VERIF, "evidence"), exist_ok=True)
-    with open(os.path.join(VERIF, "evidence", prop + ".json"), "w") as f:
+    # evidence/ holds one file per PROPERTY; a sub-check run on its own (development aid) writes to out/
+    evdir = os.path.join(VERIF, "evidence") if re.fullmatch(r"C\d\d", prop) else os.path.join(VERIF, "out", "evidence-sub")
+    os.makedirs(evdir, exist_ok=True)
+    with open(os.path.join(evdir, prop + ".json"), "w") as f:
         json.dump(ev, f, indent=1, sort_keys=True)
     print("check %s %s: proofs=%s obligations=%d cases=%d agree=%d diff=%d monitor_hits=%d nontrivial=%d wall=%.1fs" % (
         prop, tier, "ok" if not proof_broken else "BROKEN", obligations, len(allres),
